@@ -70,6 +70,7 @@ func Decode(prop string, raw json.RawMessage) (interface{}, error) {
 
 var nsUniverse = []string{"n1", "n2"}
 var nameUniverse = []string{"a", "b"}
+var confusableKeys = [][2]string{{"n-1", "a"}, {"n", "1-a"}, {"n.1", "a"}, {"n", "1.a"}}
 
 func pick(rng *rand.Rand, xs ...string) string { return xs[rng.Intn(len(xs))] }
 
@@ -94,6 +95,12 @@ func randKey(rng *rand.Rand, nkeys int) (string, string) {
 	k := rng.Intn(nkeys)
 	if rng.Intn(10) == 0 {
 		return "", nameUniverse[(k/2)%2] // a cluster-scoped object: no namespace
+	}
+	if rng.Intn(12) == 0 {
+		// pairs of distinct keys whose parts concatenate to the same string under
+		// a separator that is legal inside names
+		c := confusableKeys[rng.Intn(len(confusableKeys))]
+		return c[0], c[1]
 	}
 	return nsUniverse[k%2], nameUniverse[(k/2)%2]
 }
